@@ -31,6 +31,7 @@ use crate::hll::estimator::HipEstimator;
 use crate::hll::get_slot;
 use crate::hll::get_value;
 use crate::hll::pack_coupon;
+use crate::hll::serialization::COMPACT_FLAG_MASK;
 use crate::hll::serialization::COUPON_SIZE_BYTES;
 use crate::hll::serialization::CUR_MODE_HLL;
 use crate::hll::serialization::HLL_PREAMBLE_SIZE;
@@ -313,6 +314,7 @@ impl Array4 {
         mut cursor: SketchSlice,
         cur_min: u8,
         lg_config_k: u8,
+        lg_aux_arr: u8,
         compact: bool,
         ooo: bool,
     ) -> Result<Self, Error> {
@@ -333,29 +335,51 @@ impl Array4 {
             .read_u32_le()
             .map_err(insufficient_data("aux_count"))?;
 
-        // Read packed 4-bit byte array
+        // Read packed 4-bit byte array; it is present whatever the compact flag says
         let mut data = vec![0u8; num_bytes];
-        if !compact {
-            cursor
-                .read_exact(&mut data)
-                .map_err(insufficient_data("data"))?;
-        } else {
-            cursor.advance(num_bytes as u64);
-        }
+        cursor
+            .read_exact(&mut data)
+            .map_err(insufficient_data("data"))?;
 
-        // Read aux map if present
+        // Read aux map if present. The compact flag selects its form: a list of exactly
+        // `aux_count` pairs, or an updatable table of 2^lg_aux_arr ints with empty slots.
         let mut aux_map = None;
         if aux_count > 0 {
+            if !compact && lg_aux_arr > lg_config_k {
+                return Err(Error::deserial(format!(
+                    "invalid aux table size: lg_arr {lg_aux_arr} for lg_k {lg_config_k}"
+                )));
+            }
+            let stored = if compact {
+                aux_count as u64
+            } else {
+                1u64 << lg_aux_arr
+            };
             let mut aux = AuxMap::new(lg_config_k);
-            for i in 0..aux_count {
+            let mut found = 0u32;
+            for i in 0..stored {
                 let coupon = cursor.read_u32_le().map_err(|_| {
                     Error::insufficient_data(format!(
-                        "expected {aux_count} aux coupons, failed at index {i}",
+                        "expected {stored} aux coupons, failed at index {i}",
                     ))
                 })?;
+                if coupon == 0 && !compact {
+                    continue; // empty slot of an updatable table
+                }
                 let slot = get_slot(coupon) & ((1 << lg_config_k) - 1);
                 let value = get_value(coupon);
+                if found == aux_count || aux.get(slot).is_some() {
+                    return Err(Error::deserial(format!(
+                        "corrupted aux table: expected {aux_count} distinct slots"
+                    )));
+                }
                 aux.insert(slot, value);
+                found += 1;
+            }
+            if found != aux_count {
+                return Err(Error::deserial(format!(
+                    "corrupted aux table: expected {aux_count} entries, found {found}"
+                )));
             }
             aux_map = Some(aux);
         }
@@ -401,8 +425,10 @@ impl Array4 {
         bytes.write_u8(lg_config_k);
         bytes.write_u8(0); // unused for HLL mode
 
-        // Write flags
-        let mut flags = 0u8;
+        // Write flags. The aux pairs are written as a compact list, which is what the
+        // compact flag announces to Java/C++ readers (without it they expect an updatable
+        // table of 2^lg_arr ints).
+        let mut flags = COMPACT_FLAG_MASK;
         if self.estimator.is_out_of_order() {
             flags |= OUT_OF_ORDER_FLAG_MASK;
         }
